@@ -22,7 +22,7 @@ const pid = "C15"
 
 // Op is one step of a hub history.
 type Op struct {
-	K      string `json:"k"`                // dispatch delete add close stall hold release burst
+	K      string `json:"k"`                // dispatch delete add close stall hold release burst flood
 	Box    int    `json:"box,omitempty"`    // mailbox index
 	Ref    int    `json:"ref,omitempty"`    // delete: which earlier message (index into dispatched; beyond = unknown id)
 	L      int    `json:"l,omitempty"`      // close/stall: listener index
@@ -83,6 +83,12 @@ var prop = hx.Prop[Case]{
 		ops = append(ops, rapid.SliceOfN(opGen, 5, 40).Draw(t, "ops")...)
 		// one case in twenty keeps bursts against a stalled-but-open listener (recorded finding) to
 		// check what comes after it: closing that listener must un-wedge everything
+		if rapid.IntRange(0, 7).Draw(t, "floodcase") == 0 {
+			// a full operation queue behind a held hub, with a listener that fails during its playback queued first
+			pre := []Op{{K: "dispatch", Box: 0}, {K: "hold", Box: 0}, {K: "add", Kind: rapid.SampledFrom([]string{"failing", "failing", "mock"}).Draw(t, "floodkind"), N: 1}, {K: "flood", Box: rapid.IntRange(0, 2).Draw(t, "floodbox")}}
+			at := rapid.IntRange(2, len(ops)).Draw(t, "floodat")
+			ops = append(append(append([]Op{}, ops[:at]...), pre...), ops[at:]...)
+		}
 		c := Case{History: rapid.SampledFrom([]int{0, 1, 2, 3, 5, 8}).Draw(t, "history"), Ops: ops, NoExclude: rapid.IntRange(0, 19).Draw(t, "noexclude") == 0}
 		if c.NoExclude {
 			// make sure the situation arises: a fresh v1 or v2 listener stalls, then a burst
@@ -520,6 +526,50 @@ func run(c Case) *hx.Outcome {
 			}
 		case "release":
 			releaseGate()
+		case "flood":
+			// while the hub is held inside a broadcast, one client keeps dispatching: the 100-slot
+			// operation queue fills and the client blocks; then the hub is released and must work the
+			// whole backlog off (whatever its operations do, they must not wait for queue space
+			// themselves, or the hub waits for itself)
+			stalledOpen := false
+			for _, l := range ls {
+				if l.stalled && !l.closed {
+					stalledOpen = true
+				}
+			}
+			if !held || c.History == 0 || stalledOpen {
+				break
+			}
+			const floodN = 130
+			var sent atomic.Int32
+			floodDone := make(chan struct{})
+			go func() {
+				for k := 0; k < floodN; k++ {
+					dispatch(op.Box) // only this goroutine touches the model until floodDone
+					sent.Add(1)
+				}
+				close(floodDone)
+			}()
+			// wait until the client is stuck on the full queue
+			for last, same := int32(-1), 0; same < 25; {
+				time.Sleep(2 * time.Millisecond)
+				if n := sent.Load(); n == last {
+					same++
+				} else {
+					last, same = n, 0
+				}
+			}
+			gate.release <- struct{}{}
+			select {
+			case <-floodDone:
+			case <-time.After(hx.ReplyTimeout):
+				wedged = true
+				o.Failf(pid+":hub-wedged", "step %d: the hub was held with its operation queue full (%d of %d dispatches accepted, the client blocked on the rest); %v after its release the backlog is still not worked off: the hub waits for itself", i, sent.Load(), floodN, hx.ReplyTimeout)
+				return o
+			}
+			held = false
+			queued = 0
+			o.Class("operation queue filled while the hub was held")
 		case "burst":
 			if held || c.History == 0 {
 				break
